@@ -9,6 +9,7 @@ correspondence only (autograd of the implementation vs autograd of an independen
 central finite differences; `docs/C02.md`).
 -/
 import GPVerif.Model.MLL
+import GPVerif.Gen.MLLAssembly
 import GPVerif.Bridge.MLLIndex
 import Mathlib.LinearAlgebra.Matrix.Block
 import Mathlib.Algebra.BigOperators.Fin
@@ -253,6 +254,73 @@ theorem sum_mll_is_mean [Field α] (ms : List α) (h : (ms.length : α) ≠ 0) :
     sumMll ms * (ms.length : α) = ms.sum := by
   simp only [sumMll]
   field_simp
+
+/-! ### the definitions regenerated from the source (`Gen/MLLAssembly.lean`, translator G7) are the model
+
+Re-checked on every run against the file the translator has just written from `$VERIF_REPO`: a change of the count
+the objective is divided by, of the sign / presence of the added-loss or prior terms, of the reduction expression, of
+the LOO `σ²`/`μ` formulas or summands changes the generated definition and breaks the corresponding proof. -/
+
+section generated
+open Gen.MLLAssembly
+
+theorem foldl_add_eq [AddCommMonoid α] (l : List α) (a : α) : l.foldl (fun r t => r + t) a = a + l.sum := by
+  induction l generalizing a with
+  | nil => simp
+  | cons x xs ih => simp only [List.foldl_cons, ih, List.sum_cons, add_assoc]
+
+/-- the generated `_add_other_terms` adds every added-loss term and every prior term once, with sign `+`. -/
+theorem gen_add_other_terms [Field α] (res : α) (P L : List α) :
+    addOtherTerms res P L = res + P.sum + L.sum := by
+  simp only [addOtherTerms, foldl_add_eq]
+  ring
+
+/-- **`forward` as generated is the model's `mll`**: log_prob, then the other terms, then division of the *whole* sum
+by `num_data = event_shape.numel()` — so `mll_assembly` / `mll_split` apply to what the source says now; and the
+generated reduction expression of a prior term is `priorReduce`. -/
+theorem gen_mll_assembly [Field α] [Inhabited α] (logN : α) (P L : List α) (n : Nat) :
+    mllForward logN P L n = mll logN P L n ∧
+    ∀ (resShape termShape : List Nat) (vals : Array α) (b : List Nat),
+      Gen.MLLAssembly.priorReduce resShape termShape vals b = MLL.priorReduce resShape termShape vals b := by
+  refine ⟨?_, fun _ _ _ _ => rfl⟩
+  simp only [mllForward, mll, gen_add_other_terms]
+
+/-- **The generated LOO formulas are the model's**: `(μᵢ, σ²ᵢ)` as written in the source are `looCode` (hence, by
+`loo_eq_true_predictive`, the predictive after deleting point `i`), the generated summand is `looTerm ∘ looQuad`, and
+the generated final reduction is `looObjective`. -/
+theorem gen_loo_terms_eq_model [Field α] [DecidableEq α] {k : Nat} (A : DMat (k + 1) (k + 1) α)
+    (y m : Fin (k + 1) → α) (i : Fin (k + 1)) :
+    looCode A y m i =
+      (A.inv?).map (fun X => (looMu A.toMatrix X.toMatrix y m i, looSigma2 A.toMatrix X.toMatrix i)) ∧
+    (∀ half logS2 yy mu s2 : α, looTermExpr half logS2 yy mu s2 = looTerm half logS2 (looQuad yy mu s2)) ∧
+    (∀ (half log2pi : α) (terms P L : List α) (n : Nat),
+      looReduce half log2pi terms P L n = looObjective half log2pi terms P L n) := by
+  refine ⟨?_, ?_, ?_⟩
+  · simp only [looCode]
+    cases A.inv? with
+    | none => rfl
+    | some X =>
+      simp only [Option.map_some, looMu, looSigma2]
+      rfl
+  · intro half logS2 yy mu s2
+    simp only [looTermExpr, looTerm, looQuad]
+    ring
+  · intro half log2pi terms P L n
+    simp only [looReduce, looObjective, gen_add_other_terms]
+
+/-- the generated LOO quantities are the true predictive (composition with `loo_eq_true_predictive`). -/
+theorem gen_loo_eq_true_predictive [Field α] [DecidableEq α] {k : Nat} (A : DMat (k + 1) (k + 1) α)
+    (y m : Fin (k + 1) → α) (i : Fin (k + 1)) (X : DMat (k + 1) (k + 1) α) (hX : A.inv? = some X)
+    (μ' s2' : α) (ht : looTrue A y m i = some (μ', s2')) :
+    looMu A.toMatrix X.toMatrix y m i = μ' ∧ looSigma2 A.toMatrix X.toMatrix i = s2' := by
+  have h := (gen_loo_terms_eq_model A y m i).1
+  rw [hX] at h
+  exact loo_eq_true_predictive A y m i _ _ μ' s2' h ht
+
+/-- `SumMarginalLogLikelihood.forward` as generated is `sumMll` (the mean of the members). -/
+theorem gen_sum_mll_is_mean [Field α] (ms : List α) : sumMllExpr ms = sumMll ms := rfl
+
+end generated
 
 /-! ### non-vacuity -/
 
